@@ -229,6 +229,29 @@ def run_set(s, stage_dir, tier):
         if results is None:
             res["undecided"] = "cbmc rc=%s: %s %s" % (rc, msgs[-400:], err[-400:])
             return res
+        # CBMC 6 marks built-in checks "fatal": after one fails, later properties on that path come back UNKNOWN.
+        # Decide those in further rounds in which only the still-unknown properties are selected.
+        for _round in range(6):
+            unk = [r["property"] for r in results if r.get("status") == "UNKNOWN"]
+            if not unk:
+                break
+            extra = []
+            for n in unk:
+                extra += ["--property", n]
+            cmd2, rc2, out2, err2, dt2 = run_cbmc(s, gb, wdir, tier, extra)
+            res["solver_time_s"] += dt2
+            r2, m2 = parse_cbmc_json(out2)
+            if r2 is None:
+                break
+            by = {r["property"]: r for r in r2}
+            progress = False
+            for i, r in enumerate(results):
+                if r.get("status") == "UNKNOWN" and r["property"] in by and by[r["property"]].get("status") != "UNKNOWN":
+                    results[i] = by[r["property"]]
+                    progress = True
+            if not progress:
+                break
+            res["cmds"].append("(+ round %d over %d properties left UNKNOWN behind a failed fatal check: cbmc ... --property <each>)" % (_round + 2, len(unk)))
     exp_fail = [CANARY] + list(s.get("expect_fail", []))
     n_canary_seen = 0
     loops_seen = set()
@@ -342,7 +365,10 @@ def trace_for(s, res, ob, tier):
                             if st.get("sourceLocation", {}).get("function", "") in ("__CPROVER_initialize", "__CPROVER__start"):
                                 continue
                             lhs = st.get("lhs", "")
-                            if lhs.startswith("__CPROVER") or "$tmp" in lhs or "return_value" in lhs and "dfcc" in lhs:
+                            if (lhs.startswith("__CPROVER") or "$tmp" in lhs or "__dfcc" in lhs or "write_set" in lhs or lhs.startswith("__")
+                                    or lhs.endswith("_ctx") or lhs in ("set", "elem", "size", "may_fail", "ptr", "allow_allocate", "allow_deallocate",
+                                                                       "contract_assigns_size", "contract_frees_size", "idx", "car", "hit", "lb", "ub")
+                                    or "builtin-library" in st.get("sourceLocation", {}).get("file", "")):
                                 continue
                             v = st.get("value", {})
                             val = v.get("data", v.get("name", ""))
@@ -536,7 +562,7 @@ def main(argv):
         return 1
     if undecided:
         for u in undecided:
-            print("UNDECIDED property=%s %s" % (pid, u))
+            print("UNDECIDED property=%s %s" % (pid, u[:600].replace("\n", " ")))
         return 2
     if not results:
         print("UNDECIDED property=%s no obligation sets selected" % pid)
